@@ -40,14 +40,14 @@ package postprocessor
 
 //@ func isStatusCodeRedirect
 //@   attr safety C10
-//@   checks idx slice div assert
+//@   checks idx slice div assert extnil
 //@   property C06
 //@   modifies nothing
 //@   ensures [def] result == isRedirectCode(statusCode)
 
 //@ func shouldExtractOutlinks
 //@   attr safety C10
-//@   checks idx slice div assert
+//@   checks idx slice div assert extnil
 //@   property C06
 //@   modifies nothing
 //@   requires item != nil && item.url != nil && config.config != nil
@@ -55,7 +55,7 @@ package postprocessor
 
 //@ func shouldExtractAssets
 //@   attr safety C10
-//@   checks idx slice div assert
+//@   checks idx slice div assert extnil
 //@   property C06
 //@   modifies nothing
 //@   requires item != nil && item.url != nil && config.config != nil
@@ -78,7 +78,7 @@ package postprocessor
 //@ pred outsSep(assets []*models.URL, outlinks []*models.URL) = freshslice(outlinks) && (arrof(outlinks) != 0 ==> !samearray(assets, outlinks)) && forall(j, 0, len(outlinks), outlinks[j] == nil || fresh(outlinks[j]))
 //@ func extractAssets
 //@   attr safety C10
-//@   checks idx slice div assert
+//@   checks idx slice div assert extnil
 //@   property C06
 //@   requires item != nil && item.url != nil
 //@   modifies models.URL::*, elem::*models.URL, models.Item::base, elem::string
@@ -99,7 +99,7 @@ package postprocessor
 // extractLinksFromPage: every link found in the text is a new URL object one hop below the page.
 //@ func extractLinksFromPage
 //@   attr safety C10
-//@   checks idx slice div assert
+//@   checks idx slice div assert extnil
 //@   property C06
 //@   requires URL != nil
 //@   modifies models.URL::*!Hops!Redirects
@@ -111,7 +111,7 @@ package postprocessor
 // for the unverified ones), so the loop never writes the page's own hop count.
 //@ func extractOutlinks
 //@   attr safety C10
-//@   checks idx slice div assert
+//@   checks idx slice div assert extnil
 //@   property C06
 //@   mode paths
 //@   requires item != nil && item.url != nil
@@ -124,7 +124,7 @@ package postprocessor
 
 //@ func postprocessItem
 //@   attr safety C10
-//@   checks idx slice div assert
+//@   checks idx slice div assert extnil
 //@   property C06
 //@   requires item != nil && item.url != nil && models.wfNode(item) && config.config != nil && models.dwrDef()
 //@   requires [archived-has-response] item.status == models.ItemArchived ==> item.url.response != nil
